@@ -33,6 +33,9 @@ inline double get(const verif_observing_map<Inner, Edge> &m, const Edge &e) {
 
 using namespace vf;
 
+// defined in h_conc_tu2.cpp: the same library function called from a second translation unit of the program
+void verif_set_concurrency_from_other_tu(std::size_t n);
+
 static const char *TBB3[] = {"mcb_sva_signed_tbb", "mcb_sva_fvs_trees_tbb", "mcb_sva_iso_trees_tbb"};
 
 static Case gen_c20() {
@@ -47,7 +50,7 @@ static Case gen_c20() {
         int n;
         int t = pick(0, 9);
         if (t < 4) n = pick(1, 4); else if (t < 7) n = pick(5, 16); else if (t < 9) n = pick(17, 64); else n = 1;
-        c.extra.push_back("op set " + std::to_string(n));
+        c.extra.push_back(std::string(coin(30) ? "op set2 " : "op set ") + std::to_string(n));   // set2 = called from the second translation unit
         int calls = pick(0, 2);
         for (int k = 0; k < calls; k++) c.extra.push_back(std::string("op call ") + TBB3[pick(0, 2)]);
     }
@@ -79,10 +82,10 @@ static Out20 body_c20(const Case &c) {
         std::istringstream is(x.substr(3));
         std::string op;
         is >> op;
-        if (op == "set") {
+        if (op == "set" || op == "set2") {
             std::size_t n;
             is >> n;
-            parmcb::set_global_tbb_concurrency(n);
+            if (op == "set2") verif_set_concurrency_from_other_tu(n); else parmcb::set_global_tbb_concurrency(n);
             o.sets++;
             std::size_t got = tbb::global_control::active_value(tbb::global_control::max_allowed_parallelism);
             if (prev >= 0 && (long) n != prev) o.changed = true;
